@@ -760,12 +760,15 @@ impl File {
             mode,
             &src.name
         );
-        assert_ne!(
-            self.id,
-            src.id,
-            "{} cannot depend on itself",
-            dep.as_ref().display()
-        );
+        if self.id == src.id {
+            // A target that asks for itself is the shortest dependency cycle.
+            return Err(RedoError::new(format!(
+                "{} cannot depend on itself: {}",
+                dep.as_ref().display(),
+                RedoErrorKind::CyclicDependency
+            ))
+            .with_kind(RedoErrorKind::CyclicDependency));
+        }
         ptx.write(
             "insert or replace into Deps (target, mode, source, delete_me) values (?,?,?,?)",
             params!(self.id, mode, src.id, false),
